@@ -2,10 +2,12 @@ package simrt
 
 import (
 	"errors"
+	"io"
 	"io/fs"
 	"os"
 	"strings"
 	"syscall"
+	"time"
 )
 
 // ReadFault is what the simulated disk does to a read of one path.
@@ -36,6 +38,7 @@ type Disk struct {
 	files  map[string]*diskFile
 	Reads  int
 	Faults int
+	short  bool
 }
 
 func NewDisk(prefix string) *Disk { return &Disk{Prefix: prefix, files: map[string]*diskFile{}} }
@@ -95,3 +98,241 @@ func ReadFile(path string) ([]byte, error) {
 }
 
 var _ = errors.New
+
+// ---- os.Open / os.Stat / *os.File (rule R14) ------------------------------------------------------------------
+//
+// A tree that reads its file through os.Open and a Read loop meets the simulated disk as well: the same per-path
+// faults as ReadFile (ENOENT, EACCES, EISDIR on open; EIO after Arg bytes), and — what a real disk almost never
+// shows in a test — short reads: every Read delivers a drawn number of bytes, at least one, and the end of the
+// file either together with the last bytes or by a separate (0, io.EOF) call.
+
+// File replaces *os.File for files opened through Open. Outside a run (or outside the simulated mount) it wraps the real file.
+type File struct {
+	real *os.File
+	d    *Disk
+	path string
+	data []byte
+	pos  int
+	eio  int // -1: none; otherwise I/O error once this many bytes were delivered
+	shut bool
+}
+
+// ShortReads makes every Read of a simulated file deliver a drawn prefix of what was asked for.
+func (d *Disk) SetShortReads(on bool) { d.short = on }
+
+// Open replaces os.Open.
+func Open(path string) (*File, error) {
+	s := cur.Load()
+	if s == nil || s.cfg.Disk == nil || !strings.HasPrefix(path, s.cfg.Disk.Prefix) {
+		f, err := os.Open(path)
+		if err != nil {
+			return nil, err
+		}
+		return &File{real: f}, nil
+	}
+	d := s.cfg.Disk
+	df, fault, arg := d.lookup(path)
+	perr := func(op string, e error) error { return &fs.PathError{Op: op, Path: path, Err: e} }
+	if df == nil {
+		return nil, perr("open", syscall.ENOENT)
+	}
+	switch fault {
+	case ReadENOENT:
+		return nil, perr("open", syscall.ENOENT)
+	case ReadEACCES:
+		return nil, perr("open", syscall.EACCES)
+	}
+	f := &File{d: d, path: path, data: append([]byte(nil), df...), eio: -1}
+	if fault == ReadEISDIR {
+		f.eio = -2 // a directory opens fine and fails on the first read
+	}
+	if fault == ReadEIO {
+		f.eio = arg
+		if f.eio > len(f.data) {
+			f.eio = len(f.data)
+		}
+	}
+	return f, nil
+}
+
+//go:norace
+func (d *Disk) lookup(path string) ([]byte, ReadFault, int) {
+	d.Reads++
+	df := d.files[path]
+	if df == nil {
+		d.Faults++
+		return nil, ReadENOENT, 0
+	}
+	if df.fault != ReadOK {
+		d.Faults++
+	}
+	data := df.data
+	if data == nil {
+		data = []byte{}
+	}
+	return data, df.fault, df.arg
+}
+
+//go:norace
+func (d *Disk) shortReads() bool { return d.short }
+
+func (f *File) Read(p []byte) (int, error) {
+	if f.real != nil {
+		return f.real.Read(p)
+	}
+	if f.shut {
+		return 0, &fs.PathError{Op: "read", Path: f.path, Err: fs.ErrClosed}
+	}
+	if f.eio == -2 {
+		return 0, &fs.PathError{Op: "read", Path: f.path, Err: syscall.EISDIR}
+	}
+	if len(p) == 0 {
+		return 0, nil
+	}
+	limit := len(f.data)
+	if f.eio >= 0 {
+		limit = f.eio
+	}
+	if f.pos >= limit {
+		if f.eio >= 0 {
+			return 0, &fs.PathError{Op: "read", Path: f.path, Err: syscall.EIO}
+		}
+		return 0, io.EOF
+	}
+	n := limit - f.pos
+	if n > len(p) {
+		n = len(p)
+	}
+	s := cur.Load()
+	if s != nil && f.d.shortReads() && n > 1 {
+		switch s.Draw("short-read", 6) {
+		case 0:
+			n = 1
+		case 1:
+			n = 1 + s.Draw("short-read-n", n)
+		case 2:
+			if n > 7 {
+				n = 7
+			}
+		case 3:
+			n = (n + 1) / 2
+		}
+	}
+	copy(p, f.data[f.pos:f.pos+n])
+	f.pos += n
+	return n, nil
+}
+
+func (f *File) Close() error {
+	if f.real != nil {
+		return f.real.Close()
+	}
+	if f.shut {
+		return &fs.PathError{Op: "close", Path: f.path, Err: fs.ErrClosed}
+	}
+	f.shut = true
+	return nil
+}
+
+func (f *File) Name() string {
+	if f.real != nil {
+		return f.real.Name()
+	}
+	return f.path
+}
+
+func (f *File) Fd() uintptr {
+	if f.real != nil {
+		return f.real.Fd()
+	}
+	return ^uintptr(0)
+}
+
+func (f *File) Seek(offset int64, whence int) (int64, error) {
+	if f.real != nil {
+		return f.real.Seek(offset, whence)
+	}
+	base := int64(0)
+	switch whence {
+	case io.SeekCurrent:
+		base = int64(f.pos)
+	case io.SeekEnd:
+		base = int64(len(f.data))
+	}
+	if base+offset < 0 {
+		return 0, &fs.PathError{Op: "seek", Path: f.path, Err: syscall.EINVAL}
+	}
+	f.pos = int(base + offset)
+	if f.pos > len(f.data) {
+		f.pos = len(f.data)
+	}
+	return int64(f.pos), nil
+}
+
+func (f *File) ReadAt(p []byte, off int64) (int, error) {
+	if f.real != nil {
+		return f.real.ReadAt(p, off)
+	}
+	if f.eio == -2 {
+		return 0, &fs.PathError{Op: "read", Path: f.path, Err: syscall.EISDIR}
+	}
+	if off >= int64(len(f.data)) {
+		return 0, io.EOF
+	}
+	n := copy(p, f.data[off:])
+	if f.eio >= 0 && int(off)+n > f.eio {
+		n = f.eio - int(off)
+		if n < 0 {
+			n = 0
+		}
+		return n, &fs.PathError{Op: "read", Path: f.path, Err: syscall.EIO}
+	}
+	if n < len(p) {
+		return n, io.EOF
+	}
+	return n, nil
+}
+
+// Stat of an open file.
+func (f *File) Stat() (os.FileInfo, error) {
+	if f.real != nil {
+		return f.real.Stat()
+	}
+	return simInfo{name: f.path, size: int64(len(f.data)), dir: f.eio == -2}, nil
+}
+
+// Stat replaces os.Stat.
+func Stat(path string) (os.FileInfo, error) {
+	s := cur.Load()
+	if s == nil || s.cfg.Disk == nil || !strings.HasPrefix(path, s.cfg.Disk.Prefix) {
+		return os.Stat(path)
+	}
+	df, fault, _ := s.cfg.Disk.lookup(path)
+	if df == nil || fault == ReadENOENT {
+		return nil, &fs.PathError{Op: "stat", Path: path, Err: syscall.ENOENT}
+	}
+	return simInfo{name: path, size: int64(len(df)), dir: fault == ReadEISDIR}, nil
+}
+
+type simInfo struct {
+	name string
+	size int64
+	dir  bool
+}
+
+func (i simInfo) Name() string {
+	if k := strings.LastIndexByte(i.name, '/'); k >= 0 {
+		return i.name[k+1:]
+	}
+	return i.name
+}
+func (i simInfo) Size() int64 { return i.size }
+func (i simInfo) Mode() fs.FileMode {
+	if i.dir {
+		return fs.ModeDir | 0o755
+	}
+	return 0o644
+}
+func (i simInfo) ModTime() time.Time { return epoch }
+func (i simInfo) IsDir() bool        { return i.dir }
+func (i simInfo) Sys() any           { return nil }
